@@ -3,6 +3,7 @@ import SlugModel.Addr
 import SlugModel.Ignore
 import SlugModel.Unpack
 import SlugModel.Builder
+import SlugModel.Remote
 /-!
 Line-protocol driver: one request per line on stdin, one answer per line on stdout.
 Fields are separated by single spaces; every string is `x<hex of UTF-8 bytes>`.
@@ -312,6 +313,53 @@ def handleBuilder (toks : List String) : String :=
     | _, _ => "not-utf8"
   | _ => "bad-op"
 
+-- ---------- remote addresses ----------
+
+def decQuery (s : String) : Option (List (Str × List Str)) :=
+  (splitNE s ";").mapM fun kv =>
+    match kv.splitOn "=" with
+    | [k, vs] => do pure (← decStr k, ← (splitNE vs "+").mapM decStr)
+    | _ => none
+
+def decUrlRec (s : String) : Option (Option UrlRec) :=
+  if s = "perr" then some none
+  else
+    match s.splitOn ":" with
+    | [sc, op, hu, host, path, rp, fq, rq, fr, rf, q, qe, ep, ef, tq] => do
+      pure (some { scheme := ← decStr sc, opaq := ← decStr op, hasUser := hu = "1", host := ← decStr host,
+                   path := ← decStr path, rawPath := ← decStr rp, forceQuery := fq = "1", rawQuery := ← decStr rq,
+                   fragment := ← decStr fr, rawFragment := ← decStr rf, query := ← decQuery q, queryErr := qe = "1",
+                   escapedPath := ← decStr ep, escapedFragment := ← decStr ef, tgzQuery := ← decStr tq })
+    | _ => none
+
+def encRemote (r : Option RemoteAddr) : String :=
+  match r with
+  | none => "err"
+  | some a =>
+    let u := a.url
+    "ok " ++ encStr a.sourceType ++ " " ++ encStr a.subPath ++ " " ++
+      String.intercalate ":" [encStr u.scheme, encStr u.opaq, encStr u.host, encStr u.path, encStr u.rawPath,
+        (if u.forceQuery then "1" else "0"), encStr u.rawQuery, encStr u.fragment, encStr u.rawFragment]
+
+def handleRemote (toks : List String) : String :=
+  match toks with
+  | ["front", g] =>
+    match decStr g with
+    | none => "not-utf8"
+    | some g =>
+      match remoteFront g with
+      | .error => "error"
+      | .url ty raw sub => "url " ++ encStr ty ++ " " ++ encStr raw ++ " " ++ encStr sub
+  | ["parse", ty, sub, rec] =>
+    match decStr ty, decStr sub, decUrlRec rec with
+    | some ty, some sub, some r => encRemote (parseRemoteWith ty sub r)
+    | _, _, _ => "not-utf8"
+  | ["make", ty, sub, rec] =>
+    match decStr ty, decStr sub, decUrlRec rec with
+    | some ty, some sub, some (some r) => encRemote (makeRemote ty r sub)
+    | _, _, _ => "not-utf8"
+  | _ => "bad-op"
+
 def handle (line : String) : String :=
   match (line.trimAscii.toString.splitOn " ") with
   | "paths" :: fn :: rest =>
@@ -325,6 +373,7 @@ def handle (line : String) : String :=
   | "resolve" :: rest => handleResolve rest
   | "unpack" :: rest => handleUnpack rest
   | "builder" :: rest => handleBuilder rest
+  | "remote" :: rest => handleRemote rest
   | "ignore" :: rest =>
     match rest.mapM decStr with
     | none => "not-utf8"
